@@ -299,14 +299,19 @@ class shortest_public_reexport:
         return isinstance(result, tuple) and len(result) == 2
 
 
-@contract(_G + "_is_path_connected_to_class", props=["C11"], verify=False)
+@contract(_G + "_is_path_connected_to_class", props=["C11"])
 class is_path_connected_to_class:
-    """Assumed: a Boolean function without effects (`str.lstrip` with a symbolic character set is outside the subset)."""
+    """A Boolean function without effects on the generator; a class path that ends with the path is connected.
+    (`str.lstrip` with a symbolic character set: only 'the result is a suffix of the receiver' is used.)"""
     params = {"path": "str", "class_path": "str"}
     modifies = []
+    raises = ()
 
     def ensures_bool(self, path, class_path, result):
         return isinstance(result, bool)
+
+    def ensures_suffix_is_connected(self, path, class_path, result):
+        return implies(class_path.endswith(path), result == True)  # noqa: E712
 
 
 @contract(_G + "_add_to_imports", props=["C11", "C01"])
